@@ -87,7 +87,7 @@ func runC13O(c c13oCase) *pbt.Verdict {
 		scripts = append(scripts, sim.ScriptAsk(s, "ok"))
 	}
 	ch, err := sim.New(sim.Config{NumAccounts: 6, MintOff: true, Validators: []sim.ValSpec{{Tokens: 3_000_000}, {Tokens: 2_000_000}, {Tokens: 1_000_000}},
-		Balance: sdk.NewCoins(sdk.NewInt64Coin("uband", 1_000_000_000), sdk.NewInt64Coin("uatom", 1_000_000_000), sdk.NewInt64Coin("ufoo", 1_000_000_000)),
+		Balance:     sdk.NewCoins(sdk.NewInt64Coin("uband", 1_000_000_000), sdk.NewInt64Coin("uatom", 1_000_000_000), sdk.NewInt64Coin("ufoo", 1_000_000_000)),
 		DataSources: dss, Scripts: scripts}, 0)
 	if err != nil {
 		v.Failf("harness", "sim.New: %v", err)
